@@ -96,6 +96,26 @@ prop("C12", "exploration", "reference PCI function model behind ConfigurationAcc
      "Non-trivial: always (a result or a refusal is compared). distinct: key of (kind, seed, case number), which determines the generated inputs.",
      [stage("checked")], [stage("checked"), stage("release", scale=200)])
 
+prop("C11", "exploration", "independent reference parser (128-bit arithmetic) over generated PCI configuration spaces + MMIO bus trace of every later access",
+     "PciTransport::new runs on generated configuration spaces (through a model ConfigurationAccess and through the real MmioCam on the bus). An independent reference parser decides, in 128-bit arithmetic, which window each capability type must yield or that construction must fail; "
+     "the windows actually chosen are observed as the (address, size) pairs the transport asks the platform to map (mmio_phys_to_virt), which must equal the reference windows and lie inside an allocated memory BAR. "
+     "Accepted transports are then driven through random Transport operations with the four windows served by a register-level virtio-pci model (field offsets/widths of virtio_pci_common_cfg, queue_select first, queue_enable last, notify address = queue_notify_off x multiplier as a 16-bit write, "
+     "reset write followed by status reads until the device reports 0 after 0..5 busy reads); any access outside the windows is a violation.",
+     "Soundness (Ok => windows valid and equal to the reference) is asserted for every space; completeness (valid => Ok) only for the canonical QEMU-like layout. Capabilities that do not fit in the 256-byte space or name a reserved BAR number are ignored by the reference (VirtIO 1.2 4.1.4). "
+     "queue_notify_off is kept inside the notify window (a well-formed device); cyclic capability lists are not generated; operations are skipped when hostile-but-valid windows overlap each other.",
+     "a case is one generated configuration space: canonical (1/4), canonical with 1..3 hostile mutations (1/2: duplicated capabilities before/after, hostile offset/length/bar/cap_len/multiplier, BAR unallocated or turned into an I/O BAR, list bit cleared), or fully hostile (1/4: 0..8 capabilities of types 0..255 in random order, "
+     "cap_len in {0,15,16,19,20,24}, offsets/lengths from {0, small, BAR size -1/0/+1, 2^31, 2^32-1, pairs summing to >= 2^32}, BARs 32/64-bit/I-O/unallocated/unimplemented up to 2^63, capability structures at the very end of configuration space), followed by 40 checked operations and a checked drop when construction succeeds. "
+     "Non-trivial: always (construction reached Ok or Err and was compared with the reference). distinct: key of (seed, case number), which determines the space.",
+     [stage("checked"), stage("release", scale=500)], [stage("checked", scale=15000), stage("release", scale=4000)])
+
+prop("C13", "exploration", "MMIO bus trace per configuration access (bounds, exact bytes) + versioned configuration store with scheduler-controlled updates between individual reads",
+     "(a) every read/write_config_space call on the real MMIO (legacy and modern) and PCI transports is judged from the bus trace: in-window accesses must return Ok and touch exactly the bytes of the field once, everything else must return the too-small / missing error with no access at all (offset + size evaluated without wrap-around), in both the overflow-checked and the plain release profile; "
+     "(b) the five drivers with multi-field configuration reads are constructed while a scheduler bumps configuration version + generation before chosen individual accesses; every version has unique field values, so the reported capacity / CID / console size / MAC / mount tag must equal the value of one single exposed version.",
+     "Misaligned offsets hit a documented assert: 'panic or error, no access' is accepted. On PCI completeness is required only inside the window rounded down to whole 32-bit words (the transport models the window as [u32]); soundness against the true window. At most 12 updates per construction, so the 8-bit PCI generation cannot wrap (no ABA).",
+     "a case is (i) one (transport, window size) sweep: 6 field types x offsets 0..=W+8 and {2^31, 2^32-4, 2^32, 2^63, usize::MAX-7..=usize::MAX} x read/write, for W in {0,1,2,3,4,6,8,10,64,4096} on MMIO modern, MMIO legacy and PCI; (ii) one driver construction (blk, vsock, console+size(), net, 9p) on one of 4 transports with one placement of configuration updates: "
+     "every subset of size 1..3 of the first n+4 configuration accesses (n = accesses of an undisturbed construction) plus random schedules of up to 12 updates. Non-trivial: always (an access was judged / a multi-field value was compared against the exposed versions). distinct: key of (transport, window) resp. (driver, transport, schedule).",
+     [stage("checked"), stage("release")], [stage("checked"), stage("release")])
+
 NOT_YET = {}
 import re
 props = [json.loads(l) for l in open(os.path.join(ROOT, "properties.jsonl"))]
@@ -143,7 +163,7 @@ def main():
     print("wrote plan.json, MANIFEST.json:", len(checks), "checks,", len(NOT_YET), "not_applicable")
 
 HOOK_COMMITS = ["3c7b69a"]
-FIX_COMMITS = ["0598fcf", "bc247e1", "811bf5f", "d0efe8d"]
+FIX_COMMITS = ["0598fcf", "bc247e1", "811bf5f", "d0efe8d", "71da244", "db6be61", "1b3383f", "56251f9", "86dc6a3"]
 
 if __name__ == "__main__":
     main()
